@@ -587,6 +587,32 @@ type c10World struct {
 	e    *c07Env
 	srv  *c10Resp
 	rust *c10Rust
+	// refused is a loopback address on which connections are refused (stands in for the covert)
+	refused string
+}
+
+// use does what connection handling does once a connection has been identified as belonging to
+// registration d (cmd/application: MarkActive, then Proxy): the registration is marked active - which
+// publishes Update - and the real Proxy is run for it. The covert is pointed at a loopback port that
+// refuses connections and the client end is an already closed pipe, so Proxy returns at once; it has
+// counted the tunnel by then, like for any tunnel whose covert cannot be reached.
+func (w *c10World) use(d *DecoyRegistration) {
+	w.e.rm.MarkActive(d)
+	if w.refused == "" {
+		ln, err := net.Listen("tcp", "127.0.0.1:0")
+		if err != nil {
+			panic(err)
+		}
+		w.refused = ln.Addr().String()
+		ln.Close()
+	}
+	saved := d.Covert
+	d.Covert = w.refused
+	c1, c2 := net.Pipe()
+	c2.Close()
+	Proxy(d, c1, w.e.rm.Logger)
+	c1.Close()
+	d.Covert = saved
 }
 
 func c10NewWorld(tb testing.TB, rec *vh.Rec) *c10World {
@@ -848,7 +874,7 @@ func c10Check(t vh.Fataler, rec *vh.Rec, w *c10World, c c07Case, later *c10Defer
 	}
 	// Update: a connection arrives for each of them
 	for _, d := range valid {
-		e.rm.MarkActive(d)
+		w.use(d)
 		up := w.srv.Take()
 		if len(up) != 1 {
 			fail(c10V("update:count", "MarkActive published %d messages", len(up)), nil)
@@ -924,7 +950,7 @@ func TestVerif_C10_announce(t *testing.T) {
 // itself applies. A registration is aged to just under / just over the lifetime named in the New
 // (then Update) message and the sweeper is run: it has to survive / be removed.
 func TestVerif_C10_lifetimes(t *testing.T) {
-	rec := vh.NewRec("C10", "lifetimes", "for every transport x family: ingest (New), age the registration to requested lifetime -/+ 60 s, sweep: usable before, forgotten after; again with MarkActive (Update). Time is advanced by shifting the recorded registration time backwards. Exhaustive over 4 transports x 2 families x {unused, used}. Plus every history [ingest] + up to 4 (thorough: 5) operations from {ingest the same message again, mark active, advance 5 min, 7 min, 2 h 59 min, 3 h 5 min, sweep} + [sweep]: at every sweep point a registration the station still hands out must have a live session in the modelled detector (announcements actually published, each counted from the moment it was published, the longer one kept; 60 s slack). Non-trivial: every case.")
+	rec := vh.NewRec("C10", "lifetimes", "for every transport x family: ingest (New), age the registration to requested lifetime -/+ 60 s, sweep: usable before, forgotten after; again with the registration used the way connection handling uses it (MarkActive, which publishes Update, then the real Proxy with an unreachable covert). Time is advanced by shifting the recorded registration time backwards. Exhaustive over 4 transports x 2 families x {unused, used}. Plus every history [ingest] + up to 4 (thorough: 5) operations from {ingest the same message again, mark active, advance 5 min, 7 min, 2 h 59 min, 3 h 5 min, sweep} + [sweep]: at every sweep point a registration the station still hands out must have a live session in the modelled detector (announcements actually published, each counted from the moment it was published, the longer one kept; 60 s slack). Non-trivial: every case.")
 	defer rec.Flush()
 	rec.Require("unused", "used", "history:duplicate-ingest", "history:sweep-past-detector-lifetime", "history:used")
 	rec.SetExhaustive(true)
@@ -977,7 +1003,7 @@ func TestVerif_C10_lifetimes(t *testing.T) {
 					continue
 				}
 				if used {
-					e.rm.MarkActive(valid[0])
+					w.use(valid[0])
 					up := w.srv.Take()
 					if len(up) != 1 {
 						rec.Violation(t, "update:count", c, "MarkActive published %d messages", len(up))
